@@ -56,14 +56,22 @@ type spec struct {
 	ExtHB      bool
 	ExtUnknown bool
 	ExtNoSID   bool
-	SrvSigHash []ztls.SigAndHash // zcrypto server SignatureAndHashes (DHE signature variety)
-	Seed       uint64
+	ExtXRandom int // external mode: length of an extended_random value (0 = none)
+	// zcrypto-specific Config switches of the client, drawn per case whether or not the library reads them
+	CfgSCTExt, CfgHeartbeat, CfgExtRandom, CfgEMS, CfgNoOCSP, CfgNoTickets, CfgExplicitCurves bool
+	CfgClientRandom                                                                           bool
+	CfgCompression                                                                            []uint8
+	CfgPoints                                                                                 []uint8
+	CfgSigHashes                                                                              []ztls.SigAndHash
+	SrvSigHash                                                                                []ztls.SigAndHash // zcrypto server SignatureAndHashes (DHE signature variety)
+	Seed                                                                                      uint64
 }
 
 func (s spec) String() string {
-	return fmt.Sprintf("%s/%04x/%s/%04x/c%d mode=%s cmax=%04x hrr=%v alpn=%d sct=%d ocsp=%d resume=%v cauth=%v leaf=%s skip=%v shrw=%d skxflip=%v seg=%d nobuf=%v ftkt=%v notkt=%v sigalgs=%04x ems=%v hb=%v unk=%v",
+	return fmt.Sprintf("%s/%04x/%s/%04x/c%d mode=%s cmax=%04x hrr=%v alpn=%d sct=%d ocsp=%d resume=%v cauth=%v leaf=%s skip=%v shrw=%d skxflip=%v seg=%d nobuf=%v ftkt=%v notkt=%v sigalgs=%04x ems=%v hb=%v unk=%v xrand=%d cfg[sct=%v hb=%v xr=%v ems=%v noocsp=%v notkt=%v explcurves=%v crandom=%v comp=%v points=%v sighashes=%v]",
 		s.Cell.Peer, s.Cell.Vers, s.Cell.Kind, s.Cell.Suite, s.Cell.Curve, s.Mode, s.ClientMax, s.HRR, s.ALPN, s.SCT, s.OCSP, s.Resume, s.ClientAuth,
-		s.LeafSet, s.SkipVerify, s.SHRewrite, s.SKXFlip, s.Seg, s.NoBuffer, s.ForceTkt, s.NoTickets, s.SigAlgs, s.ExtEMS, s.ExtHB, s.ExtUnknown)
+		s.LeafSet, s.SkipVerify, s.SHRewrite, s.SKXFlip, s.Seg, s.NoBuffer, s.ForceTkt, s.NoTickets, s.SigAlgs, s.ExtEMS, s.ExtHB, s.ExtUnknown, s.ExtXRandom,
+		s.CfgSCTExt, s.CfgHeartbeat, s.CfgExtRandom, s.CfgEMS, s.CfgNoOCSP, s.CfgNoTickets, s.CfgExplicitCurves, s.CfgClientRandom, s.CfgCompression, s.CfgPoints, s.CfgSigHashes)
 }
 
 var allCurves = []uint16{23, 24, 25, 29}
@@ -247,6 +255,27 @@ func makeSpec(c cell, idx int, r *rand.Rand) spec {
 		s.ExtHB = p(20)
 		s.ExtUnknown = p(30)
 		s.ExtNoSID = p(30)
+		if p(20) {
+			s.ExtXRandom = 1 + r.IntN(40)
+		}
+	}
+	s.CfgSCTExt, s.CfgHeartbeat, s.CfgExtRandom, s.CfgEMS = p(25), p(20), p(15), p(20)
+	s.CfgNoOCSP, s.CfgNoTickets, s.CfgClientRandom = p(15), p(12), p(15)
+	s.CfgExplicitCurves = p(8) && len(s.Curves) > 0
+	if p(15) {
+		s.CfgCompression = []uint8{0}
+	}
+	if p(15) {
+		s.CfgPoints = []uint8{0}
+	}
+	if p(15) {
+		for _, h := range []uint8{6, 5, 4, 2} {
+			for _, sg := range []uint8{1, 3} {
+				if p(75) {
+					s.CfgSigHashes = append(s.CfgSigHashes, ztls.SigAndHash{Signature: sg, Hash: h})
+				}
+			}
+		}
 	}
 	if c.Peer == "Z" && p(50) {
 		hashes := []uint8{2, 4, 5, 6}
@@ -459,6 +488,11 @@ func externalHello(s spec, r *rand.Rand) []byte {
 	if s.ExtUnknown {
 		add(0x5599, randBytes(r, 1+r.IntN(12)))
 	}
+	if s.ExtXRandom > 0 {
+		var w wr
+		w.vec16(randBytes(r, s.ExtXRandom)) // draft-rescorla-tls-extended-random: opaque extended_random_value<0..2^16-1>
+		add(extExtendedRandom, w.b)
+	}
 	suites := append([]uint16{s.Cell.Suite}, s.ExtraSuite...)
 	sid := randBytes(r, 32)
 	if s.ExtNoSID {
@@ -588,6 +622,19 @@ func runCase(s spec) *caseRun {
 		cc.InsecureSkipVerify = s.SkipVerify
 		cc.DontBufferHandshakes = s.NoBuffer
 		cc.ForceSessionTicketExt = s.ForceTkt
+		cc.SignedCertificateTimestampExt = s.CfgSCTExt
+		cc.HeartbeatEnabled = s.CfgHeartbeat
+		cc.ExtendedRandom = s.CfgExtRandom
+		cc.ExtendedMasterSecret = s.CfgEMS
+		cc.NoOcspStapling = s.CfgNoOCSP
+		cc.SessionTicketsDisabled = s.CfgNoTickets
+		cc.ExplicitCurvePreferences = s.CfgExplicitCurves
+		cc.CompressionMethods = s.CfgCompression
+		cc.SupportedPoints = s.CfgPoints
+		cc.SignatureAndHashes = s.CfgSigHashes
+		if s.CfgClientRandom {
+			cc.ClientRandom = randBytes(r, 32)
+		}
 		if s.ClientAuth {
 			cc.Certificates = []ztls.Certificate{pki.Client[s.Cell.Kind].Z()}
 		}
